@@ -3,7 +3,7 @@
 # Applies the seeded change to a scratch worktree of /repo (never to /repo itself), runs the demo on
 # the clean and the changed tree, runs the check against the changed tree, removes the worktree and
 # re-runs nothing else.  Prints one summary line.
-D="$1"; P="$2"; TIER="${3:-quick}"
+D="$(cd "$1" && pwd)"; P="$2"; TIER="${3:-quick}"   # absolute seed dir
 WT="/tmp/seedwt_$$"
 cd "$(dirname "$0")/.."
 git -C /repo worktree add --detach "$WT" HEAD >/dev/null 2>&1 || { echo "worktree failed"; exit 2; }
